@@ -151,6 +151,14 @@ Theorem C20_new_leader_seq_trace : forall d c lg ops tr,
 Proof. exact leader_seq_all. Qed.
 Print Assumptions C20_new_leader_seq_trace.
 
+(** the index check of publishEntries is needed only strictly below the recorded applied index: with
+    `>` instead of `>=` ([rstep_lt]) every run from the initial state is the same (the mutation is an
+    equivalent mutant; the check cannot and need not report it) *)
+Theorem C20_index_check_equality_redundant : forall d c lg ops,
+  rrun_lt d c lg (init_sys d c) ops = rrun d c lg (init_sys d c) ops.
+Proof. exact index_check_equality_redundant. Qed.
+Print Assumptions C20_index_check_equality_redundant.
+
 (** * Solo *)
 Theorem C20_solo_contiguous : forall d init ops,
   solo_contiguous (shadow_init init) ops (srun d (init_ssys init) ops).
